@@ -197,7 +197,10 @@ pub fn abuse() -> Profile {
     p.weights.push((Arbitrary, 120));
     p.weights.push((TooNew, 4));
     p.weights.push((WrongDirection, 4));
-    p.weights.push((CallDupSerial, 3));
+    p.weights.push((CallDupSerial, 10));
+    p.weights.push((ReplyGuess, 12));
+    p.weights.push((Call, 20));
+    p.weights.push((DestroyService, 6));
     p.weights.push((SubscribeNoSerial, 2));
     p.weights.push((ReplyNonOwner, 4));
     p.weights.push((ReplyStale, 4));
